@@ -220,7 +220,7 @@ type siteCase struct {
 	src  string // ing | svc : the object that carries the annotation
 	form string // n own other file secother secown
 	set  string // static + crt ca pw svc, each 0|1
-	fu   string // 0: first reconciliation; 1: namespace b's own ingress was converted first, a is added by a partial sync; 2: a first reconciliation ran with every key = allow, then the ConfigMap changed
+	fu   string // 3: like 2 but the ConfigMap is emptied (keys absent); 0: first reconciliation; 1: namespace b's own ingress was converted first, a is added by a partial sync; 2: a first reconciliation ran with every key = allow, then the ConfigMap changed
 }
 
 func (sc siteCase) args() string {
@@ -448,7 +448,7 @@ func runSite(sc siteCase, withForeign bool) (res siteResult) {
 			res.log = append(env.Logger.Lines, fmt.Sprint(r))
 		}
 	}()
-	if sc.fu == "2" {
+	if sc.fu == "2" || sc.fu == "3" {
 		allow := map[string]string{}
 		for _, k := range cmKeys {
 			allow[k] = "allow"
@@ -458,6 +458,10 @@ func runSite(sc siteCase, withForeign bool) (res siteResult) {
 		env.Commit()
 		env.Cli.Reads()
 		// the operator edits the ConfigMap: what the watchers deliver is Cur = old data, New = new data
+		if sc.fu == "3" {
+			// ... or empties it: every key absent (deny by default); the watchers deliver an empty, non-nil map
+			cm = map[string]string{}
+		}
 		env.Sync(&convtypes.ChangedObjects{GlobalConfigMapDataCur: allow, GlobalConfigMapDataNew: cm,
 			Links:   convtypes.TrackingLinks{convtypes.ResourceConfigMap: []string{"ingress-controller/haproxy-ingress"}},
 			Objects: []string{"update/ConfigMap:ingress-controller/haproxy-ingress"}})
@@ -716,6 +720,8 @@ func corpus() {
 	emitSite(siteCase{"authtls", "ing", "fileb", "00000", "1"})
 	// the Gateway converter runs before buildGlobalDynamic: allow -> deny is not seen by certificateRefs
 	emitSite(siteCase{"gwcert", "ing", "other", "00000", "2"})
+	emitSite(siteCase{"tls", "ing", "other", "00000", "3"})
+	emitSite(siteCase{"authsecret", "ing", "other", "00000", "3"})
 	emitSite(siteCase{"gwcert", "ing", "other", "01000", "0"})
 	// file:// naming the controller's copy of another namespace's secret: one line per key (known findings)
 	emitSite(siteCase{"tls", "ing", "fileb", "00000", "1"})
@@ -854,6 +860,10 @@ func TestC09(t *testing.T) {
 				for _, set := range allSettings() {
 					for _, fu := range []string{"0", "1", "2"} {
 						emitSite(siteCase{site, src, form, set, fu})
+					}
+					if set[1:] == "0000" {
+						// permissions withdrawn by emptying the ConfigMap
+						emitSite(siteCase{site, src, form, set, "3"})
 					}
 				}
 			}
